@@ -311,6 +311,41 @@ fn corpus(st: &mut Stats) {
         for (name, font) in &fonts {
             let name = name.as_str();
             st.count("corpus.fonts");
+            // offset-free tables with no hand-computed content: the first compile must reproduce the
+            // source table byte for byte (catches a conversion that drops / alters a field consistently)
+            macro_rules! same_bytes {
+                ($tag:literal, $get:expr, $owned:ty) => {
+                    same_bytes!($tag, $get, $owned, usize::MAX)
+                };
+                ($tag:literal, $get:expr, $owned:ty, $upto:expr) => {{
+                    if let (Some(src), Ok(t)) = (font.table_data(Tag::new($tag)), $get) {
+                        let r = catch(AssertUnwindSafe(|| {
+                            let o: $owned = t.to_owned_table();
+                            dump_table(&o).ok()
+                        }));
+                        if let Ok(Some(b)) = r {
+                            st.evaluations += 1;
+                            // `$upto`: bytes after this position are writer literals that the owned type does not store
+                            let srcb = &src.as_bytes()[..src.as_bytes().len().min($upto)];
+                            let b = &b[..b.len().min($upto)];
+                            // source tables may carry trailing padding
+                            if srcb.len() >= b.len() && srcb[..b.len()] == b[..] && srcb[b.len()..].iter().all(|x| *x == 0) {
+                                st.count("source-bytes.same");
+                            } else {
+                                st.count("source-bytes.differ");
+                                st.oracle_failure(json!({"key": format!("source-bytes:{}:{}", name, String::from_utf8_lossy($tag)), "outcome": "compiled bytes differ from the source table", "source_len": srcb.len(), "compiled_len": b.len()}));
+                            }
+                        }
+                    }
+                }};
+            }
+            same_bytes!(b"head", font.head(), wt::head::Head, 52); // glyph_data_format is `#[compile(0)]`
+            same_bytes!(b"hhea", font.hhea(), wt::hhea::Hhea);
+            same_bytes!(b"vhea", font.vhea(), wt::vhea::Vhea);
+            same_bytes!(b"maxp", font.maxp(), wt::maxp::Maxp);
+            same_bytes!(b"hmtx", font.hmtx(), wt::hmtx::Hmtx);
+            same_bytes!(b"vmtx", font.vmtx(), wt::vmtx::Vmtx);
+            same_bytes!(b"gasp", font.gasp(), wt::gasp::Gasp);
             corpus_table!(st, name, "head", font.head(), wt::head::Head, |_o, d| rt::head::Head::read(d));
             corpus_table!(st, name, "hhea", font.hhea(), wt::hhea::Hhea, |_o, d| rt::hhea::Hhea::read(d));
             corpus_table!(st, name, "vhea", font.vhea(), wt::vhea::Vhea, |_o, d| rt::vhea::Vhea::read(d));
@@ -828,13 +863,13 @@ fn values_misc(st: &mut Stats, rng: &mut Rng) {
     // stored (not computed) counts that disagree with their arrays: "counts agree with their arrays"
     {
         use wt::gasp::*;
-        rt_value(st, "count-probe:Gasp.num_ranges=3,len=1", &Gasp::new(1, 3, vec![GaspRange::new(8, GaspRangeBehavior::GASP_DOGRAY)]));
-        rt_value(st, "count-probe:Gasp.num_ranges=0,len=1", &Gasp::new(1, 0, vec![GaspRange::new(8, GaspRangeBehavior::GASP_DOGRAY)]));
+        rt_value(st, "gen-compat:Gasp.num_ranges", &Gasp::new(1, 3, vec![GaspRange::new(8, GaspRangeBehavior::GASP_DOGRAY)]));
+        rt_value(st, "gen-compat:Gasp.num_ranges", &Gasp::new(1, 0, vec![GaspRange::new(8, GaspRangeBehavior::GASP_DOGRAY)]));
         use wt::cmap::*;
-        rt_value(st, "count-probe:Cmap6.entry_count=1,len=3", &Cmap6::new(16, 0, 32, 1, vec![1, 2, 3]));
+        rt_value(st, "gen-compat:Cmap6.entry_count", &Cmap6::new(16, 0, 32, 1, vec![1, 2, 3]));
         use wt::colr::*;
-        rt_value(st, "count-probe:Colr.num_base_glyph_records=1,len=2", &Colr::new(1, Some(vec![BaseGlyph::new(gid(1), 0, 1), BaseGlyph::new(gid(4), 1, 1)]), Some(vec![Layer::new(gid(2), 0), Layer::new(gid(3), 1)]), 2));
-        rt_value(st, "count-probe:LayerList.num_layers=0,len=1", &LayerList::new(0, vec![Paint::solid(1, F2Dot14::from_f32(1.0))]));
+        rt_value(st, "stored-count:Colr.num_base_glyph_records", &Colr::new(1, Some(vec![BaseGlyph::new(gid(1), 0, 1), BaseGlyph::new(gid(4), 1, 1)]), Some(vec![Layer::new(gid(2), 0), Layer::new(gid(3), 1)]), 2));
+        rt_value(st, "gen-compat:LayerList.num_layers", &LayerList::new(0, vec![Paint::solid(1, F2Dot14::from_f32(1.0))]));
     }
     // variations: DeltaSetIndexMap both formats, ItemVariationStore with null entries
     {
